@@ -13,7 +13,7 @@ use neurons::tensor::Tensor;
 pub fn meta(ctx: &Ctx) -> Meta {
     let e = max_epochs(ctx);
     Meta {
-        rule: format!("every validation-loss trajectory in {{rise,fall,equal}}^(E-1) for epoch budgets E in 1..{} x every tolerance T in 1..5, plus tolerances 6..12, 16, 20 with budgets T+1, T+2, T+4 on all trajectories with at most two non-rise events, with validation data (also with print frequencies 1, 2 and beyond the budget on a third of them, a quarter each after an earlier learn() call on the same network without / with validation data (which leaves the weights untouched), a third of them at a tiny scale: loss 2^-20 moving in steps of 2^-27, a third at a large offset: loss 2^20 moving by one unit in the last place per epoch, and every trajectory without a fall also starting at a loss of exactly 0); strictly rising trajectories under epoch budgets of 1000, 65536, i32::MAX-1 and i32::MAX (must stop at epoch T+1; watchdog of 60 s); every E in 1..{} without; the unmodified learn() is driven through each of them and the commanded pattern is re-derived from the returned vector (only matching runs count). Oracle over what learn() returned: len(train)=n; len(val_loss)=len(val_acc)=n (0 and n=E without validation data); stop(e) := e>T and the last T recorded losses strictly increasing is false for every e<n; if n<E then stop(n). States = (epoch, pattern prefix) pairs visited; transitions = epochs run; non-trivial = trajectories with at least one rise", e, e),
+        rule: format!("every validation-loss trajectory in {{rise,fall,equal}}^(E-1) for epoch budgets E in 1..{} x every tolerance T in 1..5, plus tolerances 6..12, 16, 20 with budgets T+1, T+2, T+4 on all trajectories with at most two non-rise events, with validation data (also with print frequencies 1, 2 and beyond the budget on a third of them, a quarter each after an earlier learn() call on the same network without / with validation data (which leaves the weights untouched), a third of them at a tiny scale: loss 2^-20 moving in steps of 2^-27, a third at a large offset: loss 2^20 moving by one unit in the last place per epoch, every trajectory without a fall also starting at a loss of exactly 0, and every trajectory without an 'equal' step that stops early also with a second validation sample steered so that the validation ACCURACY reaches a strict new best exactly at the stopping epoch); strictly rising trajectories under epoch budgets of 1000, 65536, i32::MAX-1 and i32::MAX (must stop at epoch T+1; watchdog of 60 s); every E in 1..{} without; the unmodified learn() is driven through each of them and the commanded pattern is re-derived from the returned vector (only matching runs count). Oracle over what learn() returned: len(train)=n; len(val_loss)=len(val_acc)=n (0 and n=E without validation data); stop(e) := e>T and the last T recorded losses strictly increasing is false for every e<n; if n<E then stop(n). States = (epoch, pattern prefix) pairs visited; transitions = epochs run; non-trivial = trajectories with at least one rise", e, e),
         bound: format!("E <= {}, T <= 5; complete", e),
         exhaustive: true,
         assumptions: vec!["stop rule read as in the statement's anchor: the window of the last T recorded validation losses is strictly increasing (T-1 comparisons) and more than T epochs have run".into()],
@@ -59,8 +59,19 @@ pub fn check(case: &Kv, rep: &mut Report) {
         let a_next: i32 = if e + 1 < epochs { -c[e] } else { 0 }; // A_{e+1}
         a[e] = -c[e - 1] - a_next;
     }
-    let w0: Vec<f32> = vec![0.0; k];
-    let targets: Vec<f32> = (0..k).map(|i| lr * (i + 1) as f32).collect();
+    // "acc": a second validation sample whose prediction meets its target exactly at epoch e* (the epoch at which the
+    // stop rule first holds) and at no other epoch: the validation ACCURACY then reaches a strict new best at the very
+    // epoch at which the loss rule fires. The stop rule is a predicate of the loss history alone. The first sample's
+    // input is tripled so that the sign of every loss step is still the commanded one (patterns without 'equal' only).
+    let acc_at: Option<usize> = case.opt("estar").and_then(|x| x.parse().ok());
+    let (kk, mult) = if acc_at.is_some() { (k + 1, 3.0f32) } else { (k, 1.0f32) };
+    let w0: Vec<f32> = vec![0.0; kk];
+    let mut targets: Vec<f32> = (0..k).map(|i| lr * (i + 1) as f32).collect();
+    if acc_at.is_some() {
+        targets.push(lr * (epochs + 8) as f32);
+    }
+    let k_orig = k;
+    let k = kk;
     let net = Net::new(Dims::Flat(k), vec![L::Dense { n: 1, act: Act::Linear, bias: false, drop: None }]);
     let mut lib = match build_with_simple(&net, &[P { w: vec![w0.clone()], b: None, inner: vec![] }]) {
         Ok(l) => l,
@@ -73,7 +84,9 @@ pub fn check(case: &Kv, rep: &mut Report) {
     lib.set_optimizer(neurons::optimizer::SGD::create(lr, None));
     let xs: Vec<Tensor> = (0..k).map(|i| Tensor::one_hot(i, k)).collect();
     let ts: Vec<Tensor> = (0..k).map(|i| Tensor::single(vec![targets[i]])).collect();
-    let xv = tensor(Dims::Flat(k), &a.iter().map(|v| *v as f32).collect::<Vec<_>>());
+    let xv = tensor(Dims::Flat(k), &(0..k).map(|i| if i < k_orig { mult * a[i] as f32 } else { 0.0 }).collect::<Vec<_>>());
+    let xv2 = Tensor::one_hot(k - 1, k);
+    let tv2 = Tensor::single(vec![lr * acc_at.unwrap_or(0) as f32]);
     // "offset": a loss of 2^20 moving by 1/8 per epoch - one unit in the last place, a relative change of 1.2e-7
     let offset = case.opt("scale") == Some("offset");
     // "zero": the validation target is the prediction after the first epoch, so the first recorded loss is EXACTLY 0 and
@@ -100,8 +113,7 @@ pub fn check(case: &Kv, rep: &mut Report) {
     let tv = Tensor::single(vec![target_value]);
     let xr: Vec<&Tensor> = xs.iter().collect();
     let tr: Vec<&Tensor> = ts.iter().collect();
-    let vx = vec![&xv];
-    let vt = vec![&tv];
+    let (vx, vt) = if acc_at.is_some() { (vec![&xv, &xv2], vec![&tv, &tv2]) } else { (vec![&xv], vec![&tv]) };
     // "pre": an earlier learn() call on the same network that leaves the weights where they are (targets equal to the
     // untrained outputs: the absolute-error gradient is exactly zero) - the contract is per call, whatever was run before
     let zero_ts: Vec<Tensor> = (0..k).map(|_| Tensor::single(vec![0.0])).collect();
@@ -234,6 +246,11 @@ pub fn check(case: &Kv, rep: &mut Report) {
         }
     }
     rep.count("trajectories_realised", 1);
+    if let Some(es) = acc_at {
+        if es <= n && acc[es - 1] > 0.0 && acc[..es - 1].iter().all(|v| *v < acc[es - 1]) {
+            rep.count("runs_whose_accuracy_peaks_at_the_stopping_epoch", 1);
+        }
+    }
     let stop = |e: usize| -> bool {
         // e is 1-based, val[0..e] recorded
         if e <= tol {
@@ -282,6 +299,20 @@ pub fn cases(ctx: &Ctx) -> Vec<Kv> {
                 }
                 if (code + tol) % 3 == 2 {
                     out.push(Kv::new().put("epochs", epochs).put("tol", tol).put("val", 1).put("pattern", &pat).put("scale", "offset"));
+                }
+                // the validation accuracy reaches a strict new best exactly at the epoch at which the loss rule first holds
+                if !pat.contains('e') {
+                    let mut v = vec![0i32];
+                    for ch in pat.chars() {
+                        let last = *v.last().unwrap();
+                        v.push(last + if ch == 'r' { 1 } else { -1 });
+                    }
+                    let estar = (1..=epochs).find(|&e| e > tol && (e - tol..e - 1).all(|j| v[j] < v[j + 1]));
+                    if let Some(es) = estar {
+                        if es >= 2 {
+                            out.push(Kv::new().put("epochs", epochs).put("tol", tol).put("val", 1).put("pattern", &pat).put("estar", es));
+                        }
+                    }
                 }
                 // trajectories that start at a loss of exactly 0 (no fall possible from there)
                 if !pat.contains('f') {
